@@ -73,8 +73,9 @@ class Frame:
 
 def live(ctx, fr):
     g = AND(fr.g, NOT(ctx.exc), NOT(fr.returned))
-    if fr.loops:
-        lp = fr.loops[-1]
+    for lp in fr.loops:
+        # an enclosing loop's `continue`/`break` earlier in its current iteration also disables
+        # everything nested deeper (including inner loops entered afterwards)
         g = AND(g, NOT(lp.broke), NOT(lp.cont))
     return g
 
@@ -95,6 +96,7 @@ def bound_if(ctx, fr, cond, why):
         return
     ctx.bound = OR(ctx.bound, c)
     ctx.bound_why.append(why)
+    ctx.__dict__.setdefault("bound_log", []).append((c, why, "%s:%s" % (getattr(fr.fn, "__qualname__", "?"), ctx.__dict__.get("cur_line", "?"))))
     # execution past a violated bound is meaningless: treat as abort
     ctx.exc = OR(ctx.exc, c)
     ctx.exc_kind["Other"] = OR(ctx.exc_kind["Other"], c)
@@ -259,6 +261,7 @@ def set_var(ctx, fr, name, v):
 
 def exec_stmt(ctx, fr, s):
     ctx.steps += 1
+    ctx.cur_line = getattr(s, "lineno", 0)
     t = type(s)
     if t is ast.Expr:
         if isinstance(s.value, ast.Constant):
@@ -284,12 +287,27 @@ def exec_stmt(ctx, fr, s):
     elif t is ast.If:
         cv = ev_truth(ctx, fr, s.test)
         g0 = fr.g
+        nar = isinstance_narrowing(ctx, fr, s.test)
         if cv is not False:
             fr.g = AND(g0, cv)
-            exec_block(ctx, fr, s.body)
+            if nar and nar[1] is not None:
+                saved = fr.vars[nar[0]]
+                fr.vars[nar[0]] = nar[1]
+                exec_block(ctx, fr, s.body)
+                if fr.vars.get(nar[0]) is nar[1]:
+                    fr.vars[nar[0]] = saved
+            else:
+                exec_block(ctx, fr, s.body)
         if cv is not True and s.orelse:
             fr.g = AND(g0, NOT(cv))
-            exec_block(ctx, fr, s.orelse)
+            if nar and nar[2] is not None:
+                saved = fr.vars[nar[0]]
+                fr.vars[nar[0]] = nar[2]
+                exec_block(ctx, fr, s.orelse)
+                if fr.vars.get(nar[0]) is nar[2]:
+                    fr.vars[nar[0]] = saved
+            else:
+                exec_block(ctx, fr, s.orelse)
         fr.g = g0
     elif t is ast.For:
         exec_for(ctx, fr, s)
@@ -355,6 +373,30 @@ def exec_stmt(ctx, fr, s):
     else:
         raise Unsupported("statement %s at %s:%s" % (t.__name__, getattr(fr.fn, "__qualname__", "?"),
                                                      getattr(s, "lineno", "?")))
+
+
+def isinstance_narrowing(ctx, fr, test):
+    """`if isinstance(x, C):` on a local reference x: (name, x narrowed to C, x narrowed to not-C).
+    The candidate-class sets are static information only; the symbolic slot id is unchanged."""
+    if not (isinstance(test, ast.Call) and isinstance(test.func, ast.Name) and test.func.id == "isinstance"
+            and len(test.args) == 2 and isinstance(test.args[0], ast.Name)):
+        return None
+    nm = test.args[0].id
+    v = fr.vars.get(nm)
+    if not isinstance(v, Ref):
+        return None
+    try:
+        if lookup_name(ctx, fr, "isinstance") is not isinstance:
+            return None
+        cls = ev(ctx, fr, test.args[1])
+    except Unsupported:
+        return None
+    classes = cls if isinstance(cls, tuple) else (cls,)
+    if not all(isinstance(k, type) for k in classes):
+        return None
+    yes = [c for c in v.cands if any(issubclass(ctx.real[c], k) for k in classes)]
+    no = [c for c in v.cands if c not in yes]
+    return (nm, Ref(v.t, yes) if yes else None, Ref(v.t, no) if no else None)
 
 
 class Closure:
@@ -899,6 +941,9 @@ def get_attr(ctx, fr, obj, name):
                 return a
         raise Unsupported("super().%s" % name)
     from vf.e1 import nsmodel as NS
+    from vf.e1 import hier as _H
+    if _H.is_hpath_value(obj):
+        return _H.hpath_attr(ctx, fr, obj, name)
     if isinstance(obj, NS.NSObj):
         if name == "namespaces":
             return NS.NSTypeDict(obj.t, "name")
